@@ -10,6 +10,7 @@ import time
 from concurrent.futures import ProcessPoolExecutor
 
 from . import registry
+from .interp import Raised, Undecided
 from .loader import AnalysisError, Repo
 from .report import DISCHARGED, UNRECOGNISED, VIOLATED, Sink, split_known
 
@@ -45,6 +46,8 @@ def _run(prop, root, overrides, tier="quick"):
             sink.unknown(rid, f"analysis:{rid}", None, str(exc))
         except RecursionError:
             sink.unknown(rid, f"analysis:{rid}", None, "recursion limit")
+        except (Undecided, Raised) as exc:
+            sink.unknown(rid, f"analysis:{rid}", None, f"outside abstract domain: {exc}")
     return sink
 
 
